@@ -120,6 +120,70 @@ def rule_optional_filter(ctx):
     ctx.check(f"SET state = {SS.PENDING.value}" in us, "finalize.UPDATE_OPTIONAL_STEPS", "reverted steps become PENDING", "reverted steps get another state", "PENDING")
 
 
+def rule_revert_forgets_run(ctx):
+    """R-C07-7: a reverted optional step also forgets what it amended or created while it ran.
+
+    Trellis.delete_detached keeps a detached file for as long as an attached step has it as input.
+    A reverted step never reruns while it is not needed, so edges recorded by the reverted run would
+    keep orphaned outputs (and their producers) on disk and in the graph after every later build.
+    """
+    rv = ctx.prog.func("finalize.revert_optional_steps")
+    # accepted form A: reset_for_rerun() for every row of optional_step, unconditionally, inside the transaction
+    loops = []
+    for n in ast.walk(rv.node):
+        if isinstance(n, (ast.For, ast.AsyncFor)) and any(callee_name(c) == "reset_for_rerun" for c in calls_in(n)):
+            loops.append(n)
+    ctx.check(len(loops) == 1, rv.fq, "every reverted step is reset as before a rerun", f"{len(loops)} loop(s) call reset_for_rerun: the amended inputs of a reverted step stay in the graph and keep the detached producers of those files, and the files, alive for ever", "one loop over the reverted steps", where=ctx.where_of(rv))
+    if len(loops) != 1:
+        return
+    loop = loops[0]
+    # the iterable comes from a query on the same scratch table as the state update, without narrowing
+    it = loop.iter
+    src_q = None
+    if isinstance(it, ast.Name):
+        for n in ast.walk(rv.node):
+            if isinstance(n, ast.Assign) and any(isinstance(t, ast.Name) and t.id == it.id for t in n.targets) and n.lineno < loop.lineno:
+                src_q = n.value
+    else:
+        src_q = it
+    texts = [c.args[0] for c in calls_in(src_q) if callee_name(c) == "execute" and c.args] if src_q is not None else []
+    qtext = None
+    if texts:
+        t = texts[0]
+        qtext = t.value if isinstance(t, ast.Constant) and isinstance(t.value, str) else (ctx.prog.fold("finalize", t.id) if isinstance(t, ast.Name) else None)
+    flat = re.sub(r"\s+", " ", qtext or "").strip()
+    ctx.check(bool(flat) and re.search(r"\bFROM optional_step\b", flat) is not None and " WHERE " not in f" {flat.upper()} ", rv.fq, "the loop runs over every row of optional_step", f"rows come from: {flat or ast.unparse(it)}", "all rows of the scratch table", where=ctx.where_of(rv, loop))
+    # unconditional, inside the db region, before the scratch table is dropped, after the outputs were reset
+    n_paths = 0
+    for tr, status in flow.paths_of(rv):
+        if status not in ("return", "fall"):
+            continue
+        n_paths += 1
+        k = [j for j, e in enumerate(tr) if e[0] == "loop" and e[3] is loop]
+        entered = bool(k)
+        reg = flow.region_of(tr, k[0], lambda s_: s_.split(".")[-1] == "db") if entered else None
+        drops = [j for j, e in enumerate(tr) if e[0] == "call" and e[1].split(".")[-1] == "_drop_optional_tables"]
+        before_drop = entered and drops and k[0] < drops[-1]
+        created = [j for j, e in enumerate(tr) if e[0] == "call" and e[1].endswith("execute") and e[2].args and ast.unparse(e[2].args[0]) == "CREATE_OPTIONAL_STEP_TABLE"]
+        after_create = entered and created and created[0] < k[0]
+        upd = [j for j, e in enumerate(tr) if e[0] == "call" and e[1].endswith("execute") and e[2].args and ast.unparse(e[2].args[0]) == "UPDATE_OPTIONAL_TO_BE_DELETED"]
+        after_upd = entered and all(j < k[0] for j in upd)
+        if not (entered and reg is not None and before_drop and after_create and after_upd):
+            ctx.bad(rv.fq, "the reset runs on every path, in the transaction, between creating and dropping the scratch table and after the outputs were reset", f"path with tests {[(e[1], e[2]) for e in tr if e[0] == 'test'][:4]}: entered={entered} in-transaction={reg is not None} before-drop={bool(before_drop)} after-create={bool(after_create)} after-output-reset={bool(after_upd)}", where=ctx.where_of(rv, loop))
+            return
+    ctx.check(n_paths > 0, rv.fq, "the reset runs on every path, in the transaction, between creating and dropping the scratch table and after the outputs were reset", "no returning path", f"{n_paths} paths")
+    # the receiver is a Step built from the row
+    body_calls = [c for c in calls_in(loop) if callee_name(c) == "reset_for_rerun"]
+    recv = body_calls[0].func.value
+    tgt = {n.id for n in ast.walk(loop.target) if isinstance(n, ast.Name)}
+    ok = isinstance(recv, ast.Call) and callee_name(recv) == "Step" and any(isinstance(a, ast.Name) and a.id in tgt for a in recv.args)
+    ctx.check(ok, rv.fq, "the reset is applied to the step of the row", f"receiver is {ast.unparse(recv)}", "Step(workflow, i, label)")
+    # reset_for_rerun really drops the dynamic edges in both directions
+    rr = ctx.prog.func("step.Step.reset_for_rerun")
+    src = re.sub(r"\s+", " ", ast.unparse(rr.node))
+    ctx.check("DELETE FROM dynamic_dep" in src and "del_sources" in src and "WHERE sink = ?" in src and "WHERE source = ?" in src, rr.fq, "drops dynamic inputs and dynamic outputs", "reset_for_rerun no longer drops both kinds of dynamic edges", "both directions")
+
+
 def rule_output_memory(ctx):
     """R-C07-6: a file stays known as a former output (state BUILT/OUTDATED, hash kept) until cleanup decides about it."""
     shared.check_initialize_row_carry_over(ctx, "a former output whose row is recycled as UNDECLARED/PLANNED loses its output state and hash: once nothing uses it any more it is no longer recognised as an orphaned output and stays on disk")
@@ -131,10 +195,15 @@ RULES = [
     Rule("R-C07-3", "static-tree files pruned before the base deletion", rule_tree_files_first, min_instances=2),
     Rule("R-C07-4", "directories are queued and pruned", rule_directories, min_instances=5),
     Rule("R-C07-5", "optional revert filter", rule_optional_filter, min_instances=3),
+    Rule("R-C07-7", "a reverted optional step forgets what its run amended", rule_revert_forgets_run, min_instances=5),
     Rule("R-C07-6", "former outputs stay known as outputs until cleanup", rule_output_memory, min_instances=16),
 ]
 
 MUTANTS = [
+    Mutant("revert-keeps-dynamic-edges", "finalize.py", in_function("revert_optional_steps", replace_once("        for i, label in rows:\n            Step(workflow, i, label).reset_for_rerun()\n", "")), ("R-C07-7",)),
+    Mutant("revert-forgets-only-with-files", "finalize.py", in_function("revert_optional_steps", lambda s: s.replace("        rows = db.execute(\"SELECT i, label FROM optional_step\").fetchall()\n        for i, label in rows:\n            Step(workflow, i, label).reset_for_rerun()\n", "", 1).replace("            db.execute(UPDATE_OPTIONAL_TO_BE_DELETED)\n", "            db.execute(UPDATE_OPTIONAL_TO_BE_DELETED)\n            rows = db.execute(\"SELECT i, label FROM optional_step\").fetchall()\n            for i, label in rows:\n                Step(workflow, i, label).reset_for_rerun()\n", 1) if "Step(workflow, i, label).reset_for_rerun()" in s else None), ("R-C07-7",)),
+    Mutant("revert-forgets-non-pending-only", "finalize.py", in_function("revert_optional_steps", replace_once("SELECT i, label FROM optional_step\"", "SELECT i, label FROM optional_step WHERE state != 21\"")), ("R-C07-7",)),
+    Mutant("revert-forgets-after-drop", "finalize.py", in_function("revert_optional_steps", lambda s: s.replace("        for i, label in rows:\n            Step(workflow, i, label).reset_for_rerun()\n", "", 1).replace("        _drop_optional_tables(db)\n    # Report", "        _drop_optional_tables(db)\n        for i, label in rows:\n            Step(workflow, i, label).reset_for_rerun()\n    # Report", 1) if "Step(workflow, i, label).reset_for_rerun()" in s and "        _drop_optional_tables(db)\n    # Report" in s else None), ("R-C07-7",)),
     Mutant("prune-visited-once", "finalize.py", in_function("_prune_empty_dirs", lambda s: s.replace("    todo = sorted(dirs)\n    while len(todo) > 0:\n        path = todo.pop()\n", "    todo = sorted(dirs)\n    visited = set()\n    while len(todo) > 0:\n        path = todo.pop()\n        if path in visited:\n            continue\n        visited.add(path)\n") if "path = todo.pop()" in s else None), ("R-C07-4",)),
     Mutant("undeclared-forgets-output", "file.py", in_function("File.initialize_row", replace_once("if state in (FileState.UNDECLARED, FileState.PLANNED):", "if state == FileState.PLANNED:")), ("R-C07-6",)),
     Mutant("skip-revert", "builder.py", in_function("Builder.finalize", replace_once("            await revert_optional_steps(self.workflow, self.reporter)\n", "")), ("R-C07-1",)),
